@@ -2,7 +2,9 @@ package rx
 
 import (
 	"fmt"
+	"strings"
 
+	"github.com/gardenbed/emerge/verif/ref/bracketref"
 	"github.com/gardenbed/emerge/verif/ref/regexref"
 )
 
@@ -170,3 +172,72 @@ func Space(quick bool, yield func(t *regexref.Expr, family string)) (maxFull, ma
 	}
 	return maxSize, maxSize + 1
 }
+
+// bracketTokens are the pieces bracket contents are assembled from: plain characters, the characters with a role inside
+// brackets (`-`, `^`, `\`), escapes (also as potential range ends), a hexadecimal character and a class.
+var bracketTokens = []string{"a", "c", "z", "9", "-", `\\`, `\.`, `\]`, `\`, ".", "$", "^", `\x41`, `\d`}
+
+// BracketTexts visits the bracket group holding every sequence of up to n of the given tokens (not starting with `^`)
+// together with the analysis of its derivations in the documented grammar (ref/bracketref).
+func BracketTexts(tokens []string, n int, visit func(text string, res bracketref.Result)) {
+	var cur []string
+	var rec func(k int)
+	rec = func(k int) {
+		if len(cur) > 0 {
+			text := "[" + strings.Join(cur, "") + "]"
+			visit(text, bracketref.Analyse(text))
+		}
+		if k == 0 {
+			return
+		}
+		for _, t := range tokens {
+			if len(cur) == 0 && t == "^" {
+				continue
+			}
+			cur = append(cur, t)
+			rec(k - 1)
+			cur = cur[:len(cur)-1]
+		}
+	}
+	rec(n)
+}
+
+// Demanded reports whether a bracket group must be accepted with one particular meaning: all of its derivations in the
+// documented grammar are valid and denote the same set (the grammar read as a context-free grammar), AND reading the
+// grammar as written - alternatives in their documented order, items consumed greedily - arrives at that same set
+// (ref/regexref's parser). Where the two readings part ways (`[za-]`: the greedy reading takes `a-]` for a range and
+// then misses the closing bracket) the form is not "unambiguous" and nothing is demanded.
+func Demanded(text string, res bracketref.Result) (regexref.CharSet, bool) {
+	if !res.Unambiguous() {
+		return nil, false
+	}
+	t, err := regexref.Parse(text)
+	if err != nil || len(t.Alts) != 1 || len(t.Alts[0].Items) != 1 || t.Alts[0].Items[0].Atom == nil {
+		return nil, false
+	}
+	if t.Alts[0].Items[0].Atom.Set.Key() != res.Sets[0].Key() {
+		return nil, false
+	}
+	return res.Sets[0], true
+}
+
+// BracketTokens returns the tokens of BracketSpace.
+func BracketTokens() []string { return append([]string{}, bracketTokens...) }
+
+// BracketSpace yields, for every sequence of up to n bracket tokens (not starting with `^`), the bracket group holding
+// it - as an atom with the set it denotes - when the group is in an unambiguous form: every derivation in the documented
+// grammar is valid and all derivations denote the same set (ref/bracketref). ambiguous counts the others.
+func BracketSpace(n int, yield func(a *regexref.Atom)) (groups, ambiguous int) {
+	BracketTexts(bracketTokens, n, func(text string, res bracketref.Result) {
+		groups++
+		if set, ok := Demanded(text, res); ok {
+			yield(&regexref.Atom{Text: text, Set: set})
+		} else if res.Derivations > 0 {
+			ambiguous++
+		}
+	})
+	return
+}
+
+// AtomExpr wraps an atom as a whole pattern.
+func AtomExpr(a *regexref.Atom) *regexref.Expr { return expr(sub(single(a, nil))) }
